@@ -45,6 +45,14 @@ def c14_one(item):
         outs = {}
         for rnd in range(3):
             rng.shuffle(names)
+            if rnd > 0:
+                # a fresh parse and function for every registration order: state that survives on the objects of the first
+                # round (or in caches keyed by them) must not make later rounds agree with it by construction
+                teal, cap = impl.parse(src)
+                fn = impl.construct_function_traced(teal, ["B0"])
+                keys = impl.block_keys(fn)
+                if impl.render_contexts(fn, keys) != ctx0:
+                    res['viol'].append(('history', "re-analysing the same source in the same process gives different contexts"))
             tl = impl.make_tealer(teal, fn)
             for n in names: tl.register_detector(classes[n])
             rs = tl.run_detectors()
@@ -84,6 +92,11 @@ def c14(cx):
     rng = random.Random(f"c14/{cx.seed}")
     n = 24 if cx.quick() else 300
     progs = [gen.fragment(cx.seed, 3000 + i, max_stmts=4)[0] for i in range(n)] + [gen.callfam(cx.seed, i)[0] for i in range(0, gen.N_CALLFAM, 6)]
+    # fixed shapes where one detector's verdict comes from the at-index contexts only (a cache keyed too coarsely, or state
+    # shared between detectors, shows as an order effect here)
+    progs = ["#pragma version 8\ntxn GroupIndex\nint 0\n==\nassert\ngtxn 0 RekeyTo\nglobal ZeroAddress\n==\nassert\nint 1\nreturn\n",
+             "#pragma version 8\ntxn GroupIndex\nint 1\n==\nassert\ngtxn 1 CloseRemainderTo\nglobal ZeroAddress\n==\nassert\ngtxn 1 Fee\nint 1000\n<=\nassert\nint 1\nreturn\n",
+             "#pragma version 8\ntxn GroupIndex\nint 0\n==\nassert\nint 0\ngtxns Fee\nint 5000\n<\nassert\nint 1\nreturn\n"] + progs
     items = []
     for k, src in enumerate(progs):
         others = [[rng.choice(progs) for _ in range(rng.randrange(1, 4))] for _ in range(2)]
